@@ -764,6 +764,12 @@ impl<T: Config> UdpProtocol<T> {
             let last_recv_frame = self.last_recv_frame();
             self.recv_inputs
                 .retain(|&k, _| k >= last_recv_frame - 2 * self.max_prediction as i32);
+        } else {
+            // The input this packet is encoded against has already been discarded here, so every
+            // acknowledgement we sent since then must have been lost. Acknowledge what we have
+            // once more; otherwise the sender keeps retransmitting from a frame we can no longer
+            // decode from and the connection never recovers.
+            self.send_input_ack();
         }
     }
 
